@@ -49,6 +49,10 @@ FAULTS = [
     # found by the byte-level fuzzer (section 5 of DESIGN.md, fixes 15-17): a zero alignment, pack formats struct does not know,
     # and an upper-case shorthand directive (valid after the fix: then merely counted as not refused)
     ('range32', 'align 0'), ('malformed', 'pack <P, 5'), ('malformed', 'pack YI, 5'), ('malformed', 'pack \u013d, 5'), ('malformed', 'pack <n 5'),
+    # syntax-error branches that no other fault text reached (found by measuring line coverage of asm.py under the quick tier)
+    ('malformed', 'fence 1'), ('malformed', 'fence 1, 2, 3'), ('malformed', 'amoadd.w x5, x6'), ('malformed', 'amoadd.w x5, x6, x7, 1'), ('malformed', 'lr.w x5, x6, 1'),
+    ('malformed', 'c.ebreak x5'), ('malformed', 'c.nop 1'), ('malformed', 'ecall 1'), ('malformed', 'ret x1'), ('malformed', 'include_bytes'),
+    ('badname', 'x5 = 7'), ('badname', 'sp = 4'), ('badname', '12 = 5'), ('badname', '0x10 = 3'),
     ('malformed', 'DW 1 +'), ('nonint', 'DH 1.5'), ('rangedata', 'DD -9223372036854775810'), ('rangedata', 'Dw 0x100000001'),
 ]
 
@@ -157,6 +161,8 @@ def repaired(text):
     if head in ('error', 'include', 'include_bytes') or t.endswith(':'):
         return '# (removed)'
     if len(t.split()) >= 2 and t.split()[1] == '=':
+        if not ir.name_ok(t.split()[0]):
+            return '# (removed)'       # the NAME is the fault
         return t.split()[0] + ' = 1'
     if head.startswith('c.'):
         return 'c.nop'
